@@ -28,6 +28,8 @@ def extra(t):
             "backward_retimed_registers_by_reset_and_enable": t.get("hist", {}).get("backward_retimed_registers", {}),
             "cases_enable_low_directly_after_reset": t.get("cases_enable_low_after_reset", 0),
             "grouped_enable_logic_in_retimed_area": t.get("hist", {}).get("grouped_enable_logic_in_retimed_area", {}),
+            "memory_mixed_enables_rejected_not_judged": t.get("memory_mixed_enables_rejected_not_judged", 0),
+            "memory_mixed_enables_accepted_and_compared": t.get("memory_mixed_enables_accepted_and_compared", 0),
             "reset_edge_designs_checked_against_prediction": t.get("reset_edge_designs_checked_against_prediction", 0),
             "counter_lags_checked_against_recipe_derivation": t.get("counter_lags_checked_against_derivation", 0)}
 
@@ -54,7 +56,8 @@ vlib.standard_check({
             "enable is a grouped input, logic over grouped inputs (compare with constant, AND, NOT, OR, across two groups) with and without an enclosing stall "
             "scope, reset values chosen so that the state is a fixed point under the reset inputs, 1-3 pipestages behind; stateless logic, two groups, feed-forward registers, autonomous counters, movable registers "
             "(with stricter enables -> enable splitting / holding circuits, entry chains without a group), negative registers with compensating register, "
-            "memory read-port registers (1-2 memories of read latency 1, 1-2 registers marked allowRetimingBackward behind logic on each read port, reset value x enable in "
+            "memory read-port registers (read latency 1-2; fan-out to 2-3 registers with equal / nested / different enables: a refusal by the library is counted "
+            "rejected-not-judged, an accepted design must equal the design as written in every cycle; 1-2 memories, 1-2 registers marked allowRetimingBackward behind logic on each read port, reset value x enable in "
             "all four combinations, reset values the moved logic does not reproduce, several registers per clock and group); enables / stall inputs that stay low for "
             "1-6 cycles during and directly after reset and toggle later; pipestage hints at random places plus pattern seeds (re-convergent fan-out, hints in series, hint before/behind "
             "anchored registers); each design is built with hints and as reference twin with N explicit input registers, both post-processed by the real "
